@@ -218,6 +218,9 @@ def dfs(base, bound, rec, limit):
         for f in rec.triage(fails):
             rec.violation(f)
         n += 1
+        if rec.failures and n > 50:          # a broken tree: the verdict is known, do not enumerate every failing schedule
+            rec.count("dfs stopped early after violations")
+            break
         prefix = ch.next_prefix()
     return n, prefix is None
 
